@@ -148,6 +148,12 @@ impl TracingLayers {
                     max_log_files,
                 );
                 self.log_appender_guard = Some(worker_guard);
+                // verification hook (off unless built with --cfg maidsafe_safe_network_verif): the limits the
+                // file appender above was constructed with
+                #[cfg(maidsafe_safe_network_verif)]
+                if std::env::var_os("VERIF_DUMP_OPT").is_some() {
+                    println!("VERIF_LOGCFG max_uncompressed_log_files={max_uncompressed_log_files} max_log_files={max_log_files}");
+                }
 
                 match format {
                     LogFormat::Json => tracing_fmt::layer()
